@@ -550,21 +550,21 @@ def _vector_container_branches(prog, rep, rules):
         s = src(fi.node)
         if kind == "VectorSum":
             ok = f"if var.name == {wrt}.name:\n            return Constant(1.0)" in s or "return Constant(1.0)" in s
-            rep.ob("R02.5", fi.name, ok, "d(sum x)/dx_j = 1" if ok else "member variables do not differentiate to 1", loc=fi.loc, detail="container-branch")
+            rep.pin('registered rules: container branches', "R02.5", fi.name, ok, "d(sum x)/dx_j = 1" if ok else "member variables do not differentiate to 1", loc=fi.loc, detail="container-branch")
         elif kind == "L2Norm":
             ok = f"return _simplify_div({wrt}, {ex})" in s
-            rep.ob("R02.5", fi.name, ok, "d||x||/dx_j = x_j / ||x||" if ok else "the variable-container branch is not x_j / ||x||", loc=fi.loc, detail="container-branch")
+            rep.pin('registered rules: container branches', "R02.5", fi.name, ok, "d||x||/dx_j = x_j / ||x||" if ok else "the variable-container branch is not x_j / ||x||", loc=fi.loc, detail="container-branch")
         elif kind == "L1Norm":
             ok = f"return _simplify_div({wrt}, abs_({wrt}))" in s
-            rep.ob("R02.5", fi.name, ok, "d||x||_1/dx_j = x_j / |x_j|" if ok else "the variable-container branch is not x_j / |x_j|", loc=fi.loc, detail="container-branch")
+            rep.pin('registered rules: container branches', "R02.5", fi.name, ok, "d||x||_1/dx_j = x_j / |x_j|" if ok else "the variable-container branch is not x_j / |x_j|", loc=fi.loc, detail="container-branch")
         elif kind == "LinearCombination":
             ok = "for i, var in enumerate(vec._variables)" in s and "return Constant(float(coeffs[i]))" in s
-            rep.ob("R02.5", fi.name, ok, "d(c.x)/dx_j = c[position of x_j]" if ok else "the coefficient is not indexed by the position at which the variable was found", loc=fi.loc, detail="container-branch")
+            rep.pin('registered rules: container branches', "R02.5", fi.name, ok, "d(c.x)/dx_j = c[position of x_j]" if ok else "the coefficient is not indexed by the position at which the variable was found", loc=fi.loc, detail="container-branch")
         elif kind == "QuadraticForm":
             ok = "Q_sym = Q + Q.T" in s and "row_coeffs = Q_sym[i, :]" in s and "return LinearCombination(row_coeffs, vec)" in s and "for i, var in enumerate(vec._variables)" in s
-            rep.ob("R02.5", fi.name, ok, "d(x'Qx)/dx_i = row i of (Q + Q')x" if ok else "the variable-container branch is not LinearCombination((Q + Q.T)[i, :], vec) for the position i of the variable", loc=fi.loc, detail="container-branch")
+            rep.pin('registered rules: container branches', "R02.5", fi.name, ok, "d(x'Qx)/dx_i = row i of (Q + Q')x" if ok else "the variable-container branch is not LinearCombination((Q + Q.T)[i, :], vec) for the position i of the variable", loc=fi.loc, detail="container-branch")
             ok2 = "coeff = Q_sym[i, j]" in s and "_simplify_mul(qf_i, d_elem)" in s
-            rep.ob("R02.5", fi.name, ok2, "expression branch: sum_i [(Q + Q')f]_i * d f_i" if ok2 else "the expression-vector branch is not sum_i [(Q + Q')f]_i * d f_i", loc=fi.loc, detail="expression-branch")
+            rep.pin('registered rules: container branches', "R02.5", fi.name, ok2, "expression branch: sum_i [(Q + Q')f]_i * d f_i" if ok2 else "the expression-vector branch is not sum_i [(Q + Q')f]_i * d f_i", loc=fi.loc, detail="expression-branch")
 
 
 def _elementwise_rules(prog, rep, rules):
@@ -631,8 +631,8 @@ def _dot_partition(prog, rep, fi):
     only_l = "elif left_index is not None" in s and "return right_elems[left_index]" in s
     only_r = "elif right_index is not None" in s and "return left_elems[right_index]" in s
     none = "return Constant(0.0)" in s
-    rep.ob("R02.5", fi.name, both and only_l and only_r and none, "membership partition in-left x in-right has all four cases; single-side cases return the partner element at the found position" if both and only_l and only_r and none else "the (in-left, in-right) partition is incomplete or returns the wrong partner element", loc=fi.loc, detail="membership-partition")
+    rep.pin('gradient_dot_product', "R02.5", fi.name, both and only_l and only_r and none, "membership partition in-left x in-right has all four cases; single-side cases return the partner element at the found position" if both and only_l and only_r and none else "the (in-left, in-right) partition is incomplete or returns the wrong partner element", loc=fi.loc, detail="membership-partition")
     both_sum = "_simplify_add(\n                        right_elems[left_index], left_elems[right_index]" in s or "_simplify_add(right_elems[left_index], left_elems[right_index])" in s
-    rep.ob("R02.5", fi.name, both_sum, "a variable occurring in both operands gets both contributions" if both_sum else "a variable occurring in both operands does not get the sum of both partner elements", loc=fi.loc, detail="both-case-sum")
+    rep.pin('gradient_dot_product', "R02.5", fi.name, both_sum, "a variable occurring in both operands gets both contributions" if both_sum else "a variable occurring in both operands does not get the sum of both partner elements", loc=fi.loc, detail="both-case-sum")
     same = "if left is right" in s
-    rep.ob("R02.5", fi.name, same, "x.x shortcut (2*x_j) is taken for the identical vector object" if same else "the x.x shortcut is not guarded by object identity", loc=fi.loc, detail="same-vector-shortcut")
+    rep.pin('gradient_dot_product', "R02.5", fi.name, same, "x.x shortcut (2*x_j) is taken for the identical vector object" if same else "the x.x shortcut is not guarded by object identity", loc=fi.loc, detail="same-vector-shortcut")
